@@ -11,6 +11,10 @@ C02.d  [flow] the state entered/re-entered is the destination of the last transi
 C02.e  [flow] registry.requested is invalid at every return.
 C02.f  [cmp] in the substitution loops a request is dropped without consulting guards only if it is identical to the
        accepted transition (origin, destination, method, payload presence, payload bytes).
+C02.g  [effect] only the four request writers and request processing write the request slot.
+C02.h  [loop] processing continues while a request is outstanding up to the *configured* substitution limit and stops no earlier
+       (shares C04.a: the loop bound is the constant of the configuration type the machine was instantiated with, and equals the
+       limit the witness machine was declared with).
 """
 import itertools
 
@@ -254,6 +258,19 @@ def run(run):
             run.guard('drop condition', drop_condition, run, F)
             facts.drop(F)
             cfgmod.clear_cache()
+    # "the most recent surviving request wins" holds up to the round in which processing stops: that round is the configured
+    # substitution limit and nothing smaller (a machine that stops earlier leaves a request unprocessed that the user's limit allows)
+    from rules import c04 as _c04
+    for c in ['', 'P'] if run.tier == 'quick' else ['', 'P', 'PSHL']:
+        for v in facts.variants(run.tier):
+            F = facts.load('w_limit', c, v)
+            E = effects.Effects(F)
+            run.count('fact units')
+            run.guard('substitution loops', _c04.substitution_loops, run, F, E, F.label())
+            facts.drop(F)
+            cfgmod.clear_cache()
+    run.relabel('C04.a', 'C02.h')
+    run.floor('C02.h', 30)
     run.floor('C02.a', 60)
     run.floor('C02.g', 30)
     run.floor('C02.b', 40)
